@@ -1,5 +1,6 @@
 import RasnModel.Driver.C04
 import RasnModel.Driver.C06
+import RasnModel.Driver.C07
 import RasnModel.Driver.C14
 import RasnModel.Driver.C15
 import RasnModel.Driver.C16
@@ -10,6 +11,7 @@ def dispatch (line : String) : String :=
   match Sexp.parseLine line with
   | some (.atom "c04" :: args) => Driver.C04.handle args
   | some (.atom "c06" :: args) => Driver.C06.handle args
+  | some (.atom "c07" :: args) => Driver.C07.handle args
   | some (.atom "c14" :: args) => Driver.C14.handle args
   | some (.atom "c15" :: args) => Driver.C15.handle args
   | some (.atom "c16" :: args) => Driver.C16.handle args
